@@ -41,6 +41,31 @@ CHECKS = {
         technique="differential runtime monitor: reference program as executable oracle on replayed/steered deviate tapes",
         design="DESIGN.md section 2, C02",
     ),
+    "C03": dict(
+        script="checks/c03.py",
+        level="exploration",
+        text="Every (isotope, level, mode) the reference rules accept, with random and nested energy windows, is generated through "
+             "decay0_generator on i.i.d. and steered tapes; a monitor sums the visible energy of every event and compares it with "
+             "a Q/EK/level table parsed at check time from the reference source (cross-checked with the README level list), "
+             "checks the lepton energy sum against the window, and toallevents >= 1, == 1 on the full range and monotone along "
+             "nested windows. The histogram of E_vis - Q is published (observed: only -1, 0, +1 keV).",
+        note="Oracle table comes from resources/code/decay0/decay0_2020-04-20.for, not from the code under test; tolerance 3 keV; "
+             "chain isotopes: particles before the first alpha; gA modes are bound by C14.",
+        technique="runtime invariant monitor (conservation of energy against an independent table) over generated events",
+        design="DESIGN.md section 2, C03",
+    ),
+    "C04": dict(
+        script="checks/c04.py",
+        level="exploration",
+        text="All 69 background names and all accepted double-beta configurations (plus windows) are shot on hostile deviate tapes: "
+             "each of the first <=64 cells pinned to 1e-12, 1-1e-12, 1e-300, neighbouring cells in opposite tails, grids, branching "
+             "thresholds, whole prefixes in one tail; every event passes the well-formedness monitor and the draw counter bounds the "
+             "work per shot (cap 2e6, reported max and 99.9 percentile).",
+        note="Bounded work is decided in deviates, not seconds; a window holding < 1/300 of the spectrum is reported but not judged "
+             "(rejection acceptance legitimately tiny).",
+        technique="runtime assertion monitor on every generated event + logical-clock (draw count) bound, steered inputs",
+        design="DESIGN.md section 2, C04",
+    ),
     "C16": dict(
         script="checks/c16.py",
         level="exploration",
